@@ -29,7 +29,7 @@ func init() {
 	vlib.Register(&vlib.Prop{
 		ID:    "C11",
 		Level: "exploration",
-		Cases: func(tier string) int { return forcedCases() + vlib.TierN(tier, 600, 20000) },
+		Cases: func(tier string) int { return forcedCases() + vlib.TierN(tier, 600, 120000) },
 		Rule: "forced part: for each hook point of Publish (after closed check, topic lock taken, persisted), Subscribe (registered in wait group, locks taken, before replay, before registration) and the send loop, " +
 			"operation A is parked there while the opposite operation B (Subscribe resp. Publish) runs to completion or blocks behind A (decided by the quiescence detector), then A is released; grid x buffer {0,1,4} x blocking x {0,1,3} messages published before x {with/without an older subscription}, plus 1..2 messages after. " +
 			"burst part (every third non-forced case): 24 fresh topics per case; on each, 3..8 publishers released by a barrier publish as the very first operations on that topic (first use of the per-topic lock and of the topic's log), optionally racing a first Subscribe, then a late subscription must be replayed every accepted message exactly once. " +
